@@ -119,7 +119,7 @@ _hist = dict(
     _base, CTs={"D", "c1", "w1"},
     PolCfgs={_ALWAYS, _K2 + 1000 * _K1_REFUSING},
     Supplied={F(), F({"s1"}), F({"s1", "s2", "d"}), F({"s2", "d", "u"})},
-    InitRules={F({"s1", "d", "p1"})},
+    InitRules={F({"s1", "p1", "p2"})},           # also offered to add_rule: remove it and add it again
     RSets={F({"s1"}), F({"s2", "d"}), F({"s1", "p1", "p2"})},
     VUoffs={99, 1}, CheckDTs={0, 1, 2},
     Batches={1, 41},
